@@ -295,7 +295,7 @@ PROPS["C15"] = dict(
 
 PROPS["C16"] = dict(
     level="fault_enumeration",
-    technique="fault enumeration at the store-client boundary: each put and each upload_shard of a session fails in turn (plus random multi-fault sets); ordering judged on the event log",
+    technique="fault enumeration at the store-client boundary: each put and each upload_shard of a session fails in turn (plus random multi-fault sets); ordering judged on the event log; I/O-error injection (strace) underneath LocalClient::put",
     rule=("for each generated session: a fault-free run counts its store calls, then one run per call with that call failing (every put ordinal, every upload_shard ordinal; "
           "exhaustive when <= max-points calls, sampled otherwise) and random 2-4-fault sets, with seeded delays on 1/4/16-worker runtimes and two caller policies "
           "(abandon the session / give up on the failing file and finalize); evaluation = one faulty run in which the fault was actually injected; "
